@@ -1,0 +1,24 @@
+//go:build verif
+
+// Contracts for the deductive checker in /verif (comment-only; compiled only with -tags verif).
+// Ghost ref-store model (refVal, txLogged, staged, txStatus): /verif/spec/refstore.spec.
+package transaction
+
+// Every branch staged in the transaction gets its head moved with a log entry carrying the transaction id,
+// whatever order the staged refs are visited in; a committed transaction is refused without touching any ref.
+//@ func Commit
+//@   props C14
+//@   requires rs != nil && db != nil
+//@   modifies refVal, txLogged, txStatus, comSet
+//@   ensures [C14] err == nil ==> forall(k, member2(old(staged), rs, k) ==> member2(txLogged, rs, headRef(k)))
+//@   ensures [C14] err == nil ==> get2(txStatus, rs, sid(id)) == "committed"
+//@   ensures [C14] old(get2(txStatus, rs, sid(id))) == "committed" ==> err != nil && refVal == old(refVal) && txLogged == old(txLogged)
+//@   loop 1 invariant forall(k, member(visited, k) ==> member2(txLogged, rs, headRef(k))) && staged == old(staged) && txStatus == old(txStatus)
+//@   loop 1 invariant forall(k, member(domain(m), k) <==> member2(staged, rs, k)) && tx != nil && sid(tx.ID) == sid(id) && commits != nil && m != nil
+//@   loop 1 invariant old(get2(txStatus, rs, sid(id))) != "committed"
+
+//@ func Discard
+//@   props C14
+//@   requires rs != nil
+//@   modifies staged, txStatus
+//@   ensures [C14] old(get2(txStatus, rs, sid(id))) == "committed" ==> err != nil && staged == old(staged)
